@@ -143,6 +143,7 @@ fn replay(id: &str, path: &str) -> i32 {
     let w = &v["witness"];
     let keys = match w["engine"].as_str().unwrap_or("") {
         "natdiff" => sweeps::confirm_nat(w),
+        "rsp-rule" => Ok(props_nat::rsp_rule_replay(w)),
         _ => {
             // every other engine replays through the property's own confirmation function
             std::env::set_var("AXMC_REPLAY", path);
